@@ -89,7 +89,7 @@ Theorem C09_declined_thread_sync : forall st t caller flags p bad,
   flags_ok flags = true -> has_flag flags FLAG_NEW_LISTENER = false ->
   0 < fprog_len p -> fprog_len p <= BPF_MAXINSNS ->
   kernel_check (firstn (N.to_nat (fprog_len p)) (map encode p)) = true ->
-  t_strict caller = false -> path_len st caller (fprog_len p) <= MAX_INSNS_PER_PATH ->
+  t_strict caller = false -> path_len st caller (internal_len (firstn (N.to_nat (fprog_len p)) (map encode p))) <= MAX_INSNS_PER_PATH ->
   has_flag flags FLAG_TSYNC = true -> has_flag flags FLAG_TSYNC_ESRCH = false ->
   first_unsyncable caller (ks_threads st) = Some bad ->
   do_seccomp st t SECCOMP_SET_MODE_FILTER flags (fprog p) = (st, bad, 0).
